@@ -7,8 +7,8 @@ LEVEL = 'other'
 EXPLANATION = ('LANG rules over the inlined MIR event graph of every source and every Observer impl: '
                'S1 each basic source delivers exactly its documented notification shape (of = next complete, never = nothing, ...); '
                'S2 error() forwards the error as the only downstream event (no item, aggregate or completion with it) and never swallows it; '
-               'S3 complete() delivers next* then exactly one complete; S5 is_finished answers true only for an empty slot or a finished downstream (otherwise a hot source skips the operator at its terminal); S6 the take_last/skip_last queues are first-in-first-out; S7 the take_last queue never holds more than `count` items after next(), for every count >= 0 (interval abstract interpretation of len - count); S8 the next() bodies of take, skip, skip_last, filter, take_while and skip_while agree with their definitions path by path (decision tables over the counter/bound difference, the predicate result and the mode flags; both directions); S9 distinct_until_(key_)changed replace their remembered item by the incoming one exactly when they forward it and never empty it; S10 value-flow definitions by path-sensitive provenance dataflow: last remembers every item and emits the remembered one, scan applies f(acc, item) once, stores and emits the new acc, default_if_empty clears its flag on every item and emits the default iff it is still set, pairwise emits (previous, item) and refills the previous slot, collect adds every item and emits the collection, map/tap/filter_map/on_error_map apply the user function once to the incoming value and forward as defined, contains answers true exactly on equality and false at the end, distinct(_key) forwards iff the key is new and then records it, buffer_with_count releases and empties the buffer exactly when it holds count items (undecidable terms pass); S4 next() never sends an error and completes downstream only in the '
-               'tabled early terminators. Decides the termination shape on every path and, for the tabled operators, which items are forwarded and where each emitted value comes from; does not decide what user closures compute nor the arithmetic of the derived-operator compositions (min/max/average).')
+               'S3 complete() delivers next* then exactly one complete; S5 is_finished answers true only for an empty slot or a finished downstream (otherwise a hot source skips the operator at its terminal); S6 the take_last/skip_last queues are first-in-first-out; S7 the take_last queue never holds more than `count` items after next(), for every count >= 0 (interval abstract interpretation of len - count); S8 the next() bodies of take, skip, skip_last, filter, take_while and skip_while agree with their definitions path by path (decision tables over the counter/bound difference, the predicate result and the mode flags; both directions); S9 distinct_until_(key_)changed replace their remembered item by the incoming one exactly when they forward it and never empty it; S10 value-flow definitions by path-sensitive provenance dataflow: last remembers every item and emits the remembered one, scan applies f(acc, item) once, stores and emits the new acc, default_if_empty clears its flag on every item and emits the default iff it is still set, pairwise emits (previous, item) and refills the previous slot, collect adds every item and emits the collection, map/tap/filter_map/on_error_map apply the user function once to the incoming value and forward as defined, contains answers true exactly on equality and false at the end, distinct(_key) forwards iff the key is new and then records it, buffer_with_count releases and empties the buffer exactly when it holds count items (undecidable terms pass); S11 the derived operators are the compositions their documentation states: the operator tree each ObservableExt builder returns (provided methods and constructors inlined) is compared with its definition — first = take(1), element_at(n) = skip(n).take(1), all = map.filter(not).take(1).default_if_empty(true), reduce = scan.last.default_if_empty(initial), count/sum/min/max/average with the arithmetic and the comparison direction of their folding functions, take_while vs take_while_inclusive by their flag (38 builders); S4 next() never sends an error and completes downstream only in the '
+               'tabled early terminators. Decides the termination shape on every path and, for the tabled operators, which items are forwarded and where each emitted value comes from; does not decide what user closures compute.')
 ASSUMPTIONS = ['value-level results of user closures, counters and predicates are not decided']
 TECHNIQUE = 'static analysis: regular-language inclusion of downstream event words over MIR event graphs (custom rustc_private driver)'
 
@@ -111,11 +111,13 @@ CONTROLS = [
     'S10|<verif_controls::FirstKeeper<O, Item> as Observer>::next',
     'S10|<verif_controls::StaleScan<O, F, A> as Observer>::next',
     'S10|<verif_controls::SwappedPairs<O, Item> as Observer>::next',
+    'S11|verif_controls::ctl_second',
+    'S11|verif_controls::ctl_smallest',
 ]
 
 
 def check(cx):
-    return s1(cx) + s234(cx) + s5(cx) + s6(cx) + s7(cx) + s8(cx) + s9(cx) + s10(cx)
+    return s1(cx) + s234(cx) + s5(cx) + s6(cx) + s7(cx) + s8(cx) + s9(cx) + s10(cx) + s11(cx)
 
 
 def _src_event(n):
@@ -833,4 +835,274 @@ def s10(cx):
         for t in S10_TABLE:
             if t not in seen:
                 res.append(Finding(ID, 'S10', 'table:' + t, False, 'operator not found (fail closed)'))
+    return res
+
+
+# ---- S11: the derived operators are the compositions their documentation states (operator trees of the builders)
+SELF = ('SELF',)
+TRUE = ('C', 'true')
+FALSE = ('C', 'false')
+NONE = ('NONE',)
+DFLT = ('DEFAULT',)
+ANY = ('ANY',)
+
+
+def A(n):
+    return ('ARG', n)
+
+
+def C(v):
+    return ('C', str(v))
+
+
+def OP(name, *parts):
+    return ('OP', name, parts)
+
+
+def FN(kind):
+    return ('FN', kind)
+
+
+def TUP(*parts):
+    return ('TUP', parts)
+
+
+_REDUCE = lambda f, init: OP('default_if_empty', OP('last', OP('scan', SELF, f, init), NONE), TRUE, init)
+DERIVED = {
+    'first': OP('take', SELF, C(1)),
+    'first_or': OP('default_if_empty', OP('take', SELF, C(1)), TRUE, A(2)),
+    'last': OP('last', SELF, NONE),
+    'last_or': OP('default_if_empty', OP('last', SELF, NONE), TRUE, A(2)),
+    'element_at': OP('take', OP('skip', SELF, A(2)), C(1)),
+    'ignore_elements': OP('filter', SELF, FN('always_false')),
+    'all': OP('default_if_empty', OP('take', OP('filter', OP('map', SELF, A(2)), FN('not')), C(1)), TRUE, TRUE),
+    'contains': OP('contains', SELF, A(2)),
+    'scan_initial': OP('scan', SELF, A(3), A(2)),
+    'scan': OP('scan', SELF, A(2), DFLT),
+    'reduce_initial': _REDUCE(A(3), A(2)),
+    'reduce': _REDUCE(A(2), DFLT),
+    'count': _REDUCE(FN('count'), DFLT),
+    'sum': _REDUCE(FN('sum'), DFLT),
+    'max': OP('map', OP('last', OP('scan', SELF, FN('max'), NONE), NONE), FN('unwrap')),
+    'min': OP('map', OP('last', OP('scan', SELF, FN('min'), NONE), NONE), FN('unwrap')),
+    'average': OP('map', OP('last', OP('scan', SELF, FN('accumulate'), TUP(DFLT, C(0))), NONE), FN('average')),
+    'default_if_empty': OP('default_if_empty', SELF, TRUE, A(2)),
+    'take': OP('take', SELF, A(2)),
+    'skip': OP('skip', SELF, A(2)),
+    'take_last': OP('take_last', SELF, A(2)),
+    'skip_last': OP('skip_last', SELF, A(2)),
+    'take_while': OP('take_while', SELF, A(2), FALSE),
+    'take_while_inclusive': OP('take_while', SELF, A(2), TRUE),
+    'skip_while': OP('skip_while', SELF, A(2)),
+    'filter': OP('filter', SELF, A(2)),
+    'filter_map': OP('filter_map', SELF, A(2)),
+    'map': OP('map', SELF, A(2)),
+    'map_to': OP('map_to', SELF, A(2)),
+    'tap': OP('tap', SELF, A(2)),
+    'on_error_map': OP('on_error_map', SELF, A(2)),
+    'buffer_with_count': OP('buffer_with_count', SELF, A(2)),
+    'distinct': OP('distinct', SELF),
+    'distinct_key': OP('distinct_key', SELF, A(2)),
+    'distinct_until_changed': OP('distinct_until_changed', SELF),
+    'distinct_until_key_changed': OP('distinct_until_key_changed', SELF, A(2)),
+    'pairwise': OP('pairwise', SELF),
+    'start_with': OP('start_with', SELF, A(2)),
+}
+
+
+def _dec11(P, v):
+    """decided for builder trees: arguments and calls are legitimate leaves, only unresolved terms are not"""
+    return not P.mentions_v(v, lambda x: isinstance(x, tuple) and x and x[0] in ('unk', 'mix', 'bot'))
+
+
+def _op_name(adt_variant):
+    import re as _re
+    last = adt_variant.split('::')[-1]
+    base = _re.sub(r'Op(Threads?)?$', '', last)
+    base = _re.sub(r'OP$', '', base)
+    return _re.sub(r'(?<!^)(?=[A-Z])', '_', base).lower()
+
+
+def _is_marker(F, t):
+    st = F.tystr(t)
+    return st.startswith(('observable::TypeHint', 'type_hint::TypeHint', 'std::marker::PhantomData')) or 'TypeHint<' in st.split('<')[0] + '<' and st.split('<')[0].endswith('TypeHint')
+
+
+def _fn_summaries(cx, P, v):
+    F = cx.facts
+    key = v[1]
+    if key not in F.fns:
+        return None, 0
+    fn = F.fns[key]
+    g = cx.graph(key, defaults=True)
+    sums, _ = P.summaries(g, item_arg=0, self_arg=0, maxd=40)
+    first = 2 if v[0] == 'closure' else 1
+    return [(sm['store'].get(('L', 0), ('unk',)), sm['conds']) for sm, k in sums], first
+
+
+def _fn_ok(cx, P, kind, v):
+    """None = agrees, str = definite disagreement, '' = undecided"""
+    if v[0] not in ('closure', 'fnitem'):
+        return '' if not _dec11(P, v) else 'a function item or closure was expected here, found %s' % P.show(v)
+    rets, a = _fn_summaries(cx, P, v)
+    if rets is None:
+        return ''
+    acc, val = ('arg', a), ('arg', a + 1)
+    accp = ('proj', ('variant', acc, 'Some'), '0')
+    strip_lit = lambda c: c[1].split('_')[0] if c[0] == 'const' else None
+    for ret, conds in rets:
+        if not _dec11(P, ret) and kind not in ('unwrap',):
+            return ''
+        if kind == 'always_false' and ret != ('const', 'false'):
+            return 'the filter of ignore_elements must reject every item'
+        if kind == 'not' and ret != ('op', 'Not', ('arg', a)):
+            return 'all() must look for an item whose predicate value is false'
+        if kind == 'count' and not (ret[0] == 'op' and ret[1] == 'Add' and {ret[2], ret[3]} >= {acc} and '1' in (strip_lit(ret[2]), strip_lit(ret[3]))):
+            return 'count must add exactly one per item'
+        if kind == 'sum' and not (ret[0] == 'op' and ret[1] == 'Add' and {ret[2], ret[3]} == {acc, val}):
+            return 'sum must add the item to the accumulator'
+        if kind in ('max', 'min'):
+            rel = None
+            for term, tv in conds:
+                if term[0] in ('cmp', 'op') and len(term) == 4 and term[1] in ('Gt', 'Lt', 'Ge', 'Le') and {term[2], term[3]} == {accp, val} and tv in (0, 1):
+                    op = term[1]
+                    if term[2] == val:
+                        op = {'Gt': 'Lt', 'Lt': 'Gt', 'Ge': 'Le', 'Le': 'Ge'}.get(op, op)
+                    if tv == 0:
+                        op = {'Gt': 'Le', 'Le': 'Gt', 'Lt': 'Ge', 'Ge': 'Lt'}.get(op, op)
+                    rel = op          # relation acc <rel> item that holds on this path
+            want_keep = ('Gt', 'Ge') if kind == 'max' else ('Lt', 'Le')
+            want_take = ('Le', 'Lt') if kind == 'max' else ('Ge', 'Gt')
+            if ret == ('some', accp):
+                if rel is None:
+                    return '%s keeps the old extreme without comparing it with the item' % kind
+                if rel not in want_keep:
+                    return '%s keeps the old value although it is %s the new item' % (kind, 'smaller than' if kind == 'max' else 'greater than')
+            elif ret == ('some', val):
+                if rel is not None and rel not in want_take:
+                    return '%s replaces the old value although it is the %s one' % (kind, 'greater' if kind == 'max' else 'smaller')
+            else:
+                return ''
+        if kind == 'accumulate':
+            want = ('tuple', (('op', 'Add', ('proj', ('arg', a), '0'), ('arg', a + 1)), ('op', 'Add', ('proj', ('arg', a), '1'), ('const', '1_usize'))))
+            if ret[0] == 'tuple' and len(ret[1]) == 2:
+                s0, s1 = ret[1]
+                ok0 = s0[0] == 'op' and s0[1] == 'Add' and {s0[2], s0[3]} == {('proj', ('arg', a), '0'), ('arg', a + 1)}
+                ok1 = s1[0] == 'op' and s1[1] == 'Add' and ('proj', ('arg', a), '1') in (s1[2], s1[3]) and '1' in (strip_lit(s1[2]), strip_lit(s1[3]))
+                if not (ok0 and ok1):
+                    return 'average must accumulate (sum + item, count + 1)'
+            else:
+                return ''
+        if kind == 'average':
+            num, den = ('proj', ('arg', a), '0'), ('proj', ('arg', a), '1')
+            ok = ret == ('op', 'Div', num, den) or (ret[0] == 'op' and ret[1] == 'Mul' and num in (ret[2], ret[3]) and any(
+                x[0] == 'op' and x[1] == 'Div' and strip_lit(x[2]) in ('1f64', '1', '1.0f64', '1.0') and x[3] == den for x in (ret[2], ret[3])))
+            if not ok:
+                return 'average must divide the accumulated sum by the accumulated count'
+    return None
+
+
+def _match(cx, P, pat, v, notes):
+    """None when v agrees with pat, a message when it definitely does not; undecided parts are recorded in notes"""
+    F = cx.facts
+    k = pat[0]
+    if k == 'ANY':
+        return None
+    if not _dec11(P, v) and k not in ('OP', 'FN', 'TUP'):
+        notes.append('undecided operand %s' % P.show(v))
+        return None
+    if k == 'SELF':
+        return None if v == ('old', ()) else 'the source of the composition is %s, not the receiver' % P.show(v)
+    if k == 'ARG':
+        return None if v == ('arg', pat[1]) else 'expected argument #%d here, found %s' % (pat[1] - 1, P.show(v))
+    if k == 'C':
+        if v[0] == 'const':
+            lit = v[1].split('_')[0]
+            return None if lit == pat[1] else 'expected the constant %s, found %s' % (pat[1], v[1])
+        return 'expected the constant %s, found %s' % (pat[1], P.show(v))
+    if k == 'NONE':
+        return None if v == ('none',) else 'expected None, found %s' % P.show(v)
+    if k == 'DEFAULT':
+        if v[0] == 'call' and v[1].endswith('Default::default'):
+            return None
+        notes.append('undecided default %s' % P.show(v)) if not _dec11(P, v) else None
+        return None if not _dec11(P, v) else 'expected Default::default(), found %s' % P.show(v)
+    if k == 'FN':
+        r = _fn_ok(cx, P, pat[1], v)
+        if r == '':
+            notes.append('undecided function operand')
+            return None
+        return r
+    if k == 'TUP':
+        if v[0] != 'tuple' or len(v[1]) != len(pat[1]):
+            return None if not _dec11(P, v) else 'expected a %d-tuple, found %s' % (len(pat[1]), P.show(v))
+        for pp, vv in zip(pat[1], v[1]):
+            r = _match(cx, P, pp, vv, notes)
+            if r:
+                return r
+        return None
+    if k == 'OP':
+        if v[0] != 'adt':
+            if not _dec11(P, v):
+                notes.append('undecided sub-tree')
+                return None
+            return 'expected the %s operator here, found %s' % (pat[1], P.show(v))
+        name = _op_name(v[1])
+        if name != pat[1]:
+            return 'expected the %s operator here, found %s' % (pat[1], name)
+        adt_path = v[1].rsplit('::', 1)[0]
+        ftys = dict(roles.adt_fields(cx, adt_path))
+        ops = [o for o, fname in zip(v[2], v[3] if len(v) > 3 and v[3] else [None] * len(v[2]))
+               if not (fname in ftys and _is_marker(F, ftys[fname]))]
+        pats = list(pat[2])
+        if len(ops) != len(pats):
+            return 'the %s operator is built with %d operands, its definition has %d' % (name, len(ops), len(pats))
+        import itertools
+        last = None
+        first_msg = None
+        for perm in itertools.permutations(range(len(ops))):
+            nn = []
+            bad = None
+            for pi, oi in enumerate(perm):
+                bad = _match(cx, P, pats[pi], ops[oi], nn)
+                if bad:
+                    break
+            if not bad:
+                notes.extend(nn)
+                return None
+            last = bad
+            first_msg = first_msg or bad
+        return first_msg or last
+    return None
+
+
+def s11(cx):
+    from .. import prov as P
+    F = cx.facts
+    res = []
+    by = {fn['path']: fn for fn in F.fns.values() if fn['kind'] not in ('closure', 'coroutine')}
+    if cx.control:
+        table = {'verif_controls::ctl_second': ('', OP('take', OP('skip', SELF, C(1)), C(1))),
+                 'verif_controls::ctl_smallest': ('', OP('map', OP('last', OP('scan', SELF, FN('min'), NONE), NONE), ANY))}
+    else:
+        table = {'observable::ObservableExt::' + k: (k, v) for k, v in DERIVED.items()}
+    for path, (short, pat) in sorted(table.items()):
+        fn = by.get(path)
+        if fn is None:
+            res.append(Finding(ID, 'S11', 'table:' + path, False, 'builder not found (fail closed)'))
+            continue
+        g = cx.graph(fn['key'], defaults=True)
+        sums, _ = P.summaries(g, item_arg=0, maxd=40)
+        label = path
+        bad = None
+        notes = []
+        if not sums:
+            bad = 'no returning path'
+        for sm, key in sums:
+            v = sm['store'].get(('L', 0), ('unk',))
+            bad = bad or _match(cx, P, pat, v, notes)
+        if bad:
+            res.append(Finding(ID, 'S11', label, False, '%s is not the composition its documentation states: %s' % (short or path, bad), fn['span']))
+        else:
+            res.append(Finding(ID, 'S11', label, True, 'operator tree agrees with the definition' + ((' (%d part(s) undecided)' % len(notes)) if notes else ''), fn['span']))
     return res
